@@ -1070,11 +1070,12 @@ func (in *Interp) callSSA(caller *frame, fn *ssa.Function, args []Value, env []V
 				if v, ok := in.tryHostCall(name, fn.Name(), args); ok {
 					return v
 				}
-				// summarised pure callee: regexp replacement for the patterns modelled in models.go
-				if re, isRe := args[0].(HostObj).V.Interface().(*regexp.Regexp); isRe && fn.Name() == "ReplaceAllString" && len(args) == 3 {
-					if m := in.mainPkg.Func("verifModelRegexp_ReplaceAllString"); m != nil {
-						in.stubs["regexp.(*Regexp).ReplaceAllString: Go model for the pattern "+re.String()] = true
-						return in.callSSA(caller, m, []Value{re.String(), args[1], args[2]}, nil)
+				// regular expressions on (partly) symbolic subjects: the engine's own backtracking
+				// matcher over the pattern's syntax tree (regexpsym.go, validated by -selftest)
+				if re, isRe := args[0].(HostObj).V.Interface().(*regexp.Regexp); isRe {
+					if v, ok := in.symRegexp(re, fn.Name(), args[1:]); ok {
+						in.stubs["regexp.(*Regexp)."+fn.Name()+": symbolic matcher for the pattern "+re.String()] = true
+						return v
 					}
 				}
 				in.unsupported("host method with symbolic args: " + name)
